@@ -314,6 +314,20 @@ func c10Fixed() []string {
 	b.WriteString("print v0 and v299 or v250 and not v241\neval v299 = v240 or v1\nprint v299\n")
 	b.WriteString("def blk { var w = v270 and v2; f = w or v245; def in { var z = f and w; g = z } }\n")
 	l = append(l, b.String())
+	// scopes ending with n live variables (the count popped at scope exit across every operand class, up to the full 1024)
+	for _, n := range []int{1, 2, 3, 239, 240, 241, 242, 255, 256, 257, 1000, 1022, 1023, 1024, 1025} {
+		b.Reset()
+		b.WriteString("def first { done = 1 }\ndef b { f = 1\n")
+		for k := 0; k < n; k++ {
+			fmt.Fprintf(&b, "var w%d\n", k)
+		}
+		b.WriteString("}\nprint 5\n")
+		l = append(l, b.String())
+		if n <= 1000 {
+			// the same inside an outer scope that has variables of its own
+			l = append(l, "var t = 1\ndef o { var p = 2\n"+b.String()[len("def first { done = 1 }\n"):len(b.String())-len("print 5\n")]+"g = p + t }\n")
+		}
+	}
 	// > 240 constants: constant indices crossing the varint range inside skipped operands
 	b.Reset()
 	for k := 0; k < 300; k++ {
